@@ -15,6 +15,9 @@ CHECKS = {
  "C03": ("exploration", "bounded-exhaustive input/configuration enumeration (E4) against a reference predicate, with a recording store",
          "Every single-bit flip and truncation of bundle and signature, 81 window placements x 49 skew pairs (exact ties and +-1ns included) under a frozen and a ticking virtual clock, 11 missing-field variants and node-created requests at boundary ages are sent through AuthorizeNode and FetchNodeCredentials in every enrollment mode; a request outside the widened window or failing authentication must be rejected with zero storage calls, a request inside it must be processed, and node-created requests carry exactly now..now+24h.",
          "Random multi-byte mutations are not claimed. Exact ties are not judged.", "6/C03", "E4"),
+ "C04": ("exploration", "bounded-exhaustive configuration product (E4) through the real node-side and server-side API with certificate parsing and a final real handshake",
+         "All 84 combinations of flow x storage back end (inmem, file, store-once) x storage wrapper x application state/parameters x honest retry are enrolled end to end; the response must be signed by the current root, open only with the node's encryption key, echo the nonce, carry one chain per root; every leaf is parsed (non-CA, client-auth only, node key, SKI, names, validity within the issuer's); the stored record must equal what the response was built from; five node-side substitutions must be refused; the stored credentials must yield client configurations and authenticate in a real Dial against a listener over the same store.",
+         "Key values are the library's own random ones; the check is about bindings.", "6/C04", "E4"),
  "C05": ("exploration", "bounded-exhaustive configuration/input product (E4) against a reference predicate on the real GenerateServerCertificates",
          "The complete product of lookup path, ordered record list under the node id (valid record first / middle / last / absent), claimed key, nonce signer, client-state signer and skip flag (4800 calls) is executed; success must coincide with 'verification waived by the local caller or some record in the lookup result verifies nonce and client state', failures must return no response, successes must echo the submitted state.",
          "A forged signature is one by another pool key or a missing one.", "6/C05", "E4"),
